@@ -101,4 +101,22 @@ def noHook : Tree → Option VR := fun _ => Option.none
 def replaceHook (target : Nat) (r : Tree) : Tree → Option VR :=
   fun t => if t.id == target then some (.tree r) else Option.none
 
+/-! ## The registry of fix routes (regenerated: `Generated/FixRoutes.lean`) -/
+
+/-- One place where a fix is produced: a call of `replace_node` / `remove_node` / `Replacement(…)` (or a store
+into `_changes_for_fixer`) inside `func`, the expression it rewrites (`target`), what is known about the kind of
+that node (`targetKind`: `expr:<classes>`, `stmt:<classes>`, `other:…`, `unknown`) and of the replacement
+(`replKind`), the conditions it sits under (`guards`, outermost first; `not (…)` for else branches and early
+exits) and the callers of `func`. -/
+structure Route where
+  file : String
+  func : String
+  call : String
+  target : String
+  targetKind : String
+  replKind : String
+  guards : List String
+  callers : List String
+  deriving DecidableEq, Repr
+
 end Pya.C16
